@@ -741,6 +741,52 @@ def horo_cases(q, seed):
 PHIS = [0.7, -0.7, 2.0, -2.0, 3.0, 4.4]
 
 
+def case_horoarc_composite(case):
+    """A composite HorosphereArc of several DIFFERENT arcs: every unit of circle_parameters is bound to the
+    answer of the single arc (decided by section horosphere-arcs)."""
+    from geometry_tools import hyperbolic as H
+    model, deg, shape = case["model"], case["deg"], tuple(case["shape"])
+    units = case["units"]
+    X, P1, P2 = [], [], []
+    for u in units:
+        xi, p1 = np.array(u["xi"], dtype=float), np.array(u["p1"], dtype=float)
+        p2, gap = _horo_second_point(xi, p1, u["phi"])
+        X.append(_row(xi)); P1.append(_row(p1)); P2.append(_row(p2))
+    rs = lambda A: np.array(A, dtype=float).reshape(shape + (3,))
+    comp = H.HorosphereArc(H.Point(rs(X)), H.Point(rs(P1)), H.Point(rs(P2)))
+    where = "HorosphereArc composite of shape %r (%s, degrees=%r)" % (shape, model, deg)
+    c, r, th = (np.asarray(x, dtype=float) for x in comp.circle_parameters(model=model, degrees=deg))
+    if c.shape != shape + (2,) or r.shape != shape or th.shape != shape + (2,):
+        return {"v": [_V("horoarc/composite/shape", "%s: shapes %r %r %r" % (where, c.shape, r.shape, th.shape))], "t": 1}
+    c, r, th = c.reshape(-1, 2), r.reshape(-1), th.reshape(-1, 2)
+    v, t = [], 1
+    full = 360.0 if deg else 2 * math.pi
+    for i in range(len(units)):
+        single = H.HorosphereArc(H.Point(np.array(X[i])), H.Point(np.array(P1[i])), H.Point(np.array(P2[i])))
+        c1, r1, th1 = (np.asarray(x, dtype=float) for x in single.circle_parameters(model=model, degrees=deg))
+        t += 1
+        scale = (1.0 + float(r1)) ** 2
+        if not np.max(np.abs(c[i] - c1)) <= 1e-6 * scale or not abs(r[i] - float(r1)) <= 1e-6 * scale:
+            v.append(_V("horoarc/composite/%s/centre-radius" % model, "%s, unit %d: centre %s radius %.9g, the single arc gives %s %.9g" % (where, i, _f(c[i]), r[i], _f(c1), float(r1))))
+        d = np.abs((th[i] - np.ravel(th1) + full / 2) % full - full / 2)
+        if not np.max(d) <= (1e-5 * (180 / math.pi if deg else 1.0)) * scale:
+            v.append(_V("horoarc/composite/%s/angles" % model, "%s, unit %d (centre %s): angles %s, the single arc gives %s" % (where, i, _f(units[i]["xi"]), _f(th[i]), _f(th1))))
+    return {"v": v[:4], "t": t, "o": "%s|%r|%d" % (model, shape, len(v)), "nt": True}
+
+
+def horoarc_composite_cases(q, seed):
+    base = [c for c in horoarc_cases(True, seed) if c["layout"] == "single" and c["model"] == MODELS[0] and c["deg"]]
+    # consecutive cases share the ideal centre: stride through the list so that the units of one object differ in everything
+    stride = max(1, len(base) // 7)
+    order = [base[(i * stride + i // 7) % len(base)] for i in range(len(base))]
+    for (size, shape) in ((3, [3]), (4, [2, 2]), (3, [3, 1]), (2, [1, 2])):
+        blocks = [order[i:i + size] for i in range(0, len(order) - size + 1, size)]
+        for blk in (blocks[::4] if q else blocks):
+            for model in MODELS:
+                for deg in (True, False):
+                    yield {"units": [{"xi": u["xi"], "p1": u["p1"], "phi": u["phi"]} for u in blk], "shape": shape, "model": model, "deg": deg}
+
+
 def horoarc_cases(q, seed):
     P, I = _alphabet(2, q, seed)
     for xi in I:
@@ -848,6 +894,10 @@ def run(ctx):
     if want("horosphere-arcs"):
         ctx.product("horosphere-arcs", "checks.c14:case_horoarc", list(horoarc_cases(q, seed)), chunk=64,
                     domains={"centre": "I_2", "p1": "P_2", "phi": PHIS, "layout": ["single", "composite"], "units": ["degrees", "radians"]})
+    if want("horosphere-arcs"):
+        ctx.product("horosphere-arcs-composite", "checks.c14:case_horoarc_composite", list(horoarc_composite_cases(ctx.quick, seed)), chunk=16,
+                    domains={"shapes": [[3], [2, 2], [3, 1], [1, 2]], "units": "strided blocks of the valid single arcs (different ideal centres, reference points and openings inside one object)",
+                             "oracle": "the single arc's answer for each unit (section horosphere-arcs)"})
     if want("subspaces"):
         ctx.product("subspaces", "checks.c14:case_subspace", list(subspace_cases(q, seed)), chunk=64,
                     domains={"n": [2, 3, 4], "k": "1..n-1", "basis": "all (k+1)-subsets of I_n", "hyperplane normals": sum(len(x) for x in NORMALS.values())})
